@@ -302,11 +302,12 @@ Proof.
 Qed.
 
 Section SpendingHistories.
+Variable dynguard : bool.
 Variable actors : list (Z * list Z).
 Variable U : list Z.
-Notation apply := (sp_apply actors U).
-Notation step := (sp_step actors U).
-Notation run := (sp_run actors U).
+Notation apply := (sp_apply dynguard actors U).
+Notation step := (sp_step dynguard actors U).
+Notation run := (sp_run dynguard actors U).
 
 Definition books_inv (s : sstate) : Prop := forall d, sum_books s d <= s_bank s MODULE d.
 
@@ -348,22 +349,24 @@ Proof.
     unfold csub, bank_send, cadd in IH. rewrite Z.eqb_refl in IH. destruct (MODULE =? a); unfold csub, cadd in IH; lia.
 Qed.
 
-Lemma endblock_pool_bal : forall now p P cl P', endblock_pool actors U now p P cl = Ok P' -> p_bal P' = p_bal P.
+Lemma endblock_pool_bal : forall now p P cl P', endblock_pool dynguard actors U now p P cl = Ok P' -> p_bal P' = p_bal P.
 Proof.
   intros now p P cl P' H. unfold endblock_pool in H.
   destruct (t_dyn (p_terms P)); cbn [negb] in H; [|inversion H; reflexivity].
   destruct (now <? t_dynp (p_terms P) + p_lastcalc P); [inversion H; reflexivity|].
   destruct (total_weight actors (p_terms P) (claimants p cl) =? 0); [inversion H; reflexivity|].
-  unfold bind in H. destruct (dmul _ _); try discriminate. destruct (dyn_rates _ _ _); try discriminate.
+  unfold bind in H. destruct (dmul _ _) as [den| |]; try discriminate.
+  destruct (dynguard && (den <=? 0)); [inversion H; reflexivity|].
+  destruct (dyn_rates _ _ _); try discriminate.
   inversion H; reflexivity.
 Qed.
-Lemma endblock_pools_sum : forall now l cl l' d, endblock_pools actors U now l cl = Ok l' ->
+Lemma endblock_pools_sum : forall now l cl l' d, endblock_pools dynguard actors U now l cl = Ok l' ->
   zsum (map (fun e => p_bal (snd e) d) l') = zsum (map (fun e => p_bal (snd e) d) l).
 Proof.
   intros now l cl. induction l as [|[p P] l IH]; intros l' d H; cbn [endblock_pools] in H.
   - inversion H; reflexivity.
-  - unfold bind in H. destruct (endblock_pool actors U now p P cl) as [P'| |] eqn:E; try discriminate.
-    destruct (endblock_pools actors U now l cl) as [r| |] eqn:E2; try discriminate.
+  - unfold bind in H. destruct (endblock_pool dynguard actors U now p P cl) as [P'| |] eqn:E; try discriminate.
+    destruct (endblock_pools dynguard actors U now l cl) as [r| |] eqn:E2; try discriminate.
     inversion H; subst l'. specialize (IH _ d eq_refl). apply endblock_pool_bal in E.
     unfold zsum in *. cbn [map fold_right snd]. rewrite E. lia.
 Qed.
@@ -397,7 +400,7 @@ Proof.
     inversion H; subst s'. split; [|discriminate]. intro d. unfold sum_books. cbn [s_pools s_bank fst snd].
     rewrite (sum_zset (fun P => p_bal P d) p P _ _ EP). cbv beta. cbn [p_bal].
     pose proof (withdraw_loop_facts _ _ _ _ _ _ _ E d). lia.
-  - (* end block *) unfold sp_endblock, bind in H. destruct (endblock_pools actors U now (s_pools s) (s_claims s)) as [ps| |] eqn:E; try discriminate.
+  - (* end block *) unfold sp_endblock, bind in H. destruct (endblock_pools dynguard actors U now (s_pools s) (s_claims s)) as [ps| |] eqn:E; try discriminate.
     inversion H; subst s'. unfold sum_books. cbn [s_pools s_bank].
     split; intros; [rewrite (endblock_pools_sum _ _ _ _ d E)|]; lia.
   - (* bank send *) destruct (coins_valid amt) eqn:V; cbn [negb] in H; [|discriminate].
@@ -447,10 +450,16 @@ End SpendingHistories.
 Lemma wrap64_small : forall z, 0 <= z < two64 -> wrap64 z = z.
 Proof. intros z H. unfold wrap64. apply Z.mod_small. exact H. Qed.
 
-(* without uint64 wrap-around the code's gate is the gate of the property *)
+(* without uint64 wrap-around the unrepaired gate is the gate of the property; the repaired gate always is *)
 Lemma ubi_gate_exact : forall now r, 0 <= u_last r -> 0 <= u_period r -> u_last r + u_period r < two64 ->
-  ubi_due now r = ubi_due_exact now r.
-Proof. intros now r H1 H2 H3. unfold ubi_due, ubi_due_exact. rewrite wrap64_small by lia. reflexivity. Qed.
+  ubi_due false now r = ubi_due_exact now r.
+Proof. intros now r H1 H2 H3. unfold ubi_due, ubi_due_gen, ubi_due_exact. rewrite wrap64_small by lia. reflexivity. Qed.
+Lemma ubi_gate_repaired : forall now r, 0 <= u_period r -> ubi_due true now r = ubi_due_exact now r.
+Proof.
+  intros now r H. unfold ubi_due, ubi_due_gen, ubi_due_exact.
+  destruct ((u_end r =? 0) || (u_last r <? u_end r)); [|rewrite !andb_false_r; reflexivity].
+  rewrite !andb_true_r. lia.
+Qed.
 
 Lemma uget_uset_same : forall {A} k (v : A) l, uget k (uset k v l) = Some v.
 Proof.
@@ -504,20 +513,22 @@ Proof.
   - destruct (P _ H) as (A & B & C & D'). repeat split; try assumption. intros _. exact C.
 Qed.
 
+Section UbiGate.
+Variable gate : bool.
 Lemma ubi_loop_spec : forall now l s paid0 s' paid,
   NoDup (map fst l) -> (forall id, In id (map fst l) -> In id (map fst (us_recs s))) ->
-  ubi_loop now l s paid0 = Ok (s', paid) ->
+  ubi_loop gate now l s paid0 = Ok (s', paid) ->
   map fst (us_recs s') = map fst (us_recs s) /\
   (forall id, ~ In id (map fst l) -> uget id (us_recs s') = uget id (us_recs s)) /\
   (forall id x, In (id, x) paid -> In (id, x) paid0 \/
-     exists r, In (id, r) l /\ ubi_due now r = true /\ 0 <= x /\ (u_dyn r = false -> x = ubi_amount r) /\
+     exists r, In (id, r) l /\ ubi_due gate now r = true /\ 0 <= x /\ (u_dyn r = false -> x = ubi_amount r) /\
                uget id (us_recs s') = Some (touch now r)).
 Proof.
   intros now l. induction l as [|[id0 r0] l IH]; intros s paid0 s' paid ND Sub H; cbn [ubi_loop] in H.
   - inversion H; subst. repeat split; auto.
   - cbn [map fst] in ND. inversion ND as [|? ? Hnin ND']; subst.
     assert (Sub' : forall id, In id (map fst l) -> In id (map fst (us_recs s))) by (intros; apply Sub; right; assumption).
-    destruct (ubi_due now r0) eqn:Due.
+    destruct (ubi_due gate now r0) eqn:Due.
     + unfold bind in H. destruct (ubi_process now id0 r0 s) as [[[s1 x1]|]| |] eqn:EP; try discriminate.
       * destruct (ubi_process_spec _ _ _ _ _ _ EP) as (R1 & X0 & XD & _).
         assert (K1 : map fst (us_recs s1) = map fst (us_recs s)) by (rewrite R1; apply keys_uset; apply Sub; left; reflexivity).
@@ -542,8 +553,8 @@ Qed.
 (* every distribution of the end blocker passed the gate, pays the record's amount (a dynamic
    record at most the missing part), and stamps the record with the block time *)
 Theorem ubi_paid_only_when_due : forall now s s' paid id x,
-  NoDup (map fst (us_recs s)) -> ubi_endblock now s = Ok (s', paid) -> In (id, x) paid ->
-  exists r, In (id, r) (us_recs s) /\ ubi_due now r = true /\ 0 <= x /\ (u_dyn r = false -> x = ubi_amount r)
+  NoDup (map fst (us_recs s)) -> ubi_endblock gate now s = Ok (s', paid) -> In (id, x) paid ->
+  exists r, In (id, r) (us_recs s) /\ ubi_due gate now r = true /\ 0 <= x /\ (u_dyn r = false -> x = ubi_amount r)
             /\ uget id (us_recs s') = Some (touch now r) /\ NoDup (map fst (us_recs s')).
 Proof.
   intros now s s' paid id x ND H Hin. unfold ubi_endblock in H.
@@ -552,31 +563,58 @@ Proof.
   exists r. repeat split; try assumption. rewrite A. exact ND.
 Qed.
 
-(* ubi_once_per_period: two distributions of the same record by consecutive end blockers are more
-   than one period apart -- provided last+period does not wrap around in uint64 *)
-Theorem ubi_once_per_period_guarded : forall t1 t2 s s1 s2 p1 p2 id x1 x2,
+(* two distributions of the same record by consecutive end blockers: the second passed the gate
+   against the stamp left by the first *)
+Lemma ubi_two_payments : forall t1 t2 s s1 s2 p1 p2 id x1 x2,
   NoDup (map fst (us_recs s)) ->
-  ubi_endblock t1 s = Ok (s1, p1) -> In (id, x1) p1 ->
-  ubi_endblock t2 s1 = Ok (s2, p2) -> In (id, x2) p2 ->
-  exists r, In (id, r) (us_recs s) /\
-            (0 <= t1 -> 0 <= u_period r -> t1 + u_period r < two64 -> t1 + u_period r < t2).
+  ubi_endblock gate t1 s = Ok (s1, p1) -> In (id, x1) p1 ->
+  ubi_endblock gate t2 s1 = Ok (s2, p2) -> In (id, x2) p2 ->
+  exists r, In (id, r) (us_recs s) /\ ubi_due gate t2 (touch t1 r) = true.
 Proof.
   intros t1 t2 s s1 s2 p1 p2 id x1 x2 ND H1 I1 H2 I2.
   destruct (ubi_paid_only_when_due _ _ _ _ _ _ ND H1 I1) as (r & Hr & _ & _ & _ & L1 & ND1).
   destruct (ubi_paid_only_when_due _ _ _ _ _ _ ND1 H2 I2) as (r' & Hr' & Due & _).
+  exists r. split; [assumption|].
+  rewrite (uget_in_nodup _ _ _ ND1 Hr') in L1. inversion L1; subst r'. exact Due.
+Qed.
+End UbiGate.
+
+(* ubi_once_per_period on the unrepaired gate: more than one period apart -- provided last+period
+   does not wrap around in uint64 *)
+Theorem ubi_once_per_period_guarded : forall t1 t2 s s1 s2 p1 p2 id x1 x2,
+  NoDup (map fst (us_recs s)) ->
+  ubi_endblock false t1 s = Ok (s1, p1) -> In (id, x1) p1 ->
+  ubi_endblock false t2 s1 = Ok (s2, p2) -> In (id, x2) p2 ->
+  exists r, In (id, r) (us_recs s) /\
+            (0 <= t1 -> 0 <= u_period r -> t1 + u_period r < two64 -> t1 + u_period r < t2).
+Proof.
+  intros t1 t2 s s1 s2 p1 p2 id x1 x2 ND H1 I1 H2 I2.
+  destruct (ubi_two_payments false _ _ _ _ _ _ _ _ _ _ ND H1 I1 H2 I2) as (r & Hr & Due).
   exists r. split; [assumption|]. intros T0 P0 NW.
-  rewrite (uget_in_nodup _ _ _ ND1 Hr') in L1. inversion L1; subst r'.
   rewrite ubi_gate_exact in Due by (cbn; lia). unfold ubi_due_exact in Due. cbn [touch u_last u_period] in Due. lia.
 Qed.
 
-(* the full statement (no guard) is false: with Period = 2^64-1 the sum wraps and the record is
-   paid again one second later *)
+(* ubi_once_per_period at full strength on the repaired gate (now >= last && now-last > period) *)
+Theorem ubi_once_per_period_repaired : forall t1 t2 s s1 s2 p1 p2 id x1 x2,
+  NoDup (map fst (us_recs s)) ->
+  ubi_endblock true t1 s = Ok (s1, p1) -> In (id, x1) p1 ->
+  ubi_endblock true t2 s1 = Ok (s2, p2) -> In (id, x2) p2 ->
+  exists r, In (id, r) (us_recs s) /\ (0 <= u_period r -> t1 + u_period r < t2).
+Proof.
+  intros t1 t2 s s1 s2 p1 p2 id x1 x2 ND H1 I1 H2 I2.
+  destruct (ubi_two_payments true _ _ _ _ _ _ _ _ _ _ ND H1 I1 H2 I2) as (r & Hr & Due).
+  exists r. split; [assumption|]. intros P0.
+  rewrite ubi_gate_repaired in Due by (cbn; lia). unfold ubi_due_exact in Due. cbn [touch u_last u_period] in Due. lia.
+Qed.
+
+(* the full statement is false for the unrepaired gate: with Period = 2^64-1 the sum wraps and the
+   record is paid again one second later *)
 Definition ubi_wrap_state : ustate := mkUS [(1, mkU 1700000020 0 1700000020 2 18446744073709551615 1 false)] [(1, 0)] 0.
 Theorem ubi_once_per_period_refuted :
   exists t1 t2 s s1 s2 p1 p2 id x1 x2 r,
     NoDup (map fst (us_recs s)) /\
-    ubi_endblock t1 s = Ok (s1, p1) /\ In (id, x1) p1 /\
-    ubi_endblock t2 s1 = Ok (s2, p2) /\ In (id, x2) p2 /\
+    ubi_endblock false t1 s = Ok (s1, p1) /\ In (id, x1) p1 /\
+    ubi_endblock false t2 s1 = Ok (s2, p2) /\ In (id, x2) p2 /\
     In (id, r) (us_recs s) /\ 0 <= t1 /\ 0 <= u_period r /\ ~ (t1 + u_period r < t2).
 Proof.
   exists 1700000028, 1700000029, ubi_wrap_state.
@@ -599,6 +637,7 @@ Proof.
 Qed.
 
 Section Coll.
+Variable ratomic : bool.
 Variable actors : list (Z * list Z).
 Variable U : list Z.
 
@@ -729,7 +768,7 @@ Proof.
   assert ((CMODULE =? from) = false) as -> by lia. assert ((CMODULE =? to) = false) as -> by lia. reflexivity.
 Qed.
 
-Theorem donations_untouched_by_messages : forall now o s s', co_apply actors U now o s = Ok s' -> co_user_op o ->
+Theorem donations_untouched_by_messages : forall now o s s', co_apply ratomic actors U now o s = Ok s' -> co_user_op o ->
   cs_bank s' CMODULE = cs_bank s CMODULE.
 Proof.
   intros now o s s' H WF. destruct o; cbn [co_apply co_user_op] in *; try contradiction; destruct WF as [Ha Hc];
@@ -775,7 +814,7 @@ Qed.
 End Coll.
 
 (* ---------------- refutations, by concrete histories replayed on the real code by the harness *)
-Definition run_co (U : list Z) (s : cstate) (h : list (Z * co_op)) : cstate := fold_left (co_step [] U) h s.
+Definition run_co (U : list Z) (s : cstate) (h : list (Z * co_op)) : cstate := fold_left (co_step false [] U) h s.
 Definition rich_bank : bank := fun a => if 0 <=? a then (fun _ => 1000) else czero.
 Definition co_init : cstate := mkCS [] rich_bank.
 Definition HALFD : Z := 500000000000000000.
@@ -831,11 +870,11 @@ Qed.
 
 (* a passed remove proposal can pay a contributor part of its bonds and keep its record *)
 Definition partial_witness : bool :=
-  on_ok (co_remove [0] 0 s_drift) (fun s' =>
+  on_ok (co_remove false [0] 0 s_drift) (fun s' =>
   on_some (zget 0 (cs_colls s')) (fun C' =>
     zhas 1 (co_contribs C') && (0 <? cs_bank s' 1 0 - cs_bank s_drift 1 0))).
 Theorem removal_partial_payout_refuted :
-  exists s s' a C', co_remove [0] 0 s = Ok s' /\ zget 0 (cs_colls s') = Some C' /\ zhas a (co_contribs C') = true /\
+  exists s s' a C', co_remove false [0] 0 s = Ok s' /\ zget 0 (cs_colls s') = Some C' /\ zhas a (co_contribs C') = true /\
     0 < cs_bank s' a 0 - cs_bank s a 0.
 Proof.
   assert (W : partial_witness = true) by (vm_compute; reflexivity). unfold partial_witness in W.
@@ -843,3 +882,355 @@ Proof.
   apply andb_prop in W. destruct W as [W1 W2].
   exists s_drift, s', 1, C'. repeat split; try assumption. lia.
 Qed.
+
+(* ================================================================ round 2: deeper statements *)
+(* ---------------- claim records are created only by an accepted registration *)
+Lemma pkey_eqb_eq : forall a b, pkey_eqb a b = true <-> a = b.
+Proof. intros [a1 a2] [b1 b2]. unfold pkey_eqb. cbn [fst snd]. split; [intro H; f_equal; lia | intro H; inversion H; subst; lia]. Qed.
+Lemma pget_pset : forall {A} k k' (v : A) l, pget k (pset k' v l) = if pkey_eqb k' k then Some v else pget k l.
+Proof.
+  intros A k k' v l. induction l as [|[k0 w] l IH]; cbn [pset pget].
+  - reflexivity.
+  - destruct (pkey_eqb k0 k') eqn:E; cbn [pget].
+    + apply pkey_eqb_eq in E. subst k0. destruct (pkey_eqb k' k); reflexivity.
+    + destruct (pkey_eqb k0 k) eqn:E2; [|exact IH].
+      destruct (pkey_eqb k' k) eqn:E3; [|reflexivity].
+      apply pkey_eqb_eq in E2. apply pkey_eqb_eq in E3. subst. rewrite (proj2 (pkey_eqb_eq k k) eq_refl) in E. discriminate.
+Qed.
+
+Section ClaimRecords.
+Variable dynguard : bool.
+Variable actors : list (Z * list Z).
+Variable U : list Z.
+
+Lemma claim_keeps_keys : forall now p a s s' k, sp_claim actors now p a s = Ok s' ->
+  pget k (s_claims s') <> None -> pget k (s_claims s) <> None.
+Proof.
+  intros now p a s s' k H. destruct (sp_claim_inv _ _ _ _ _ _ H) as (P & last & rw & _ & EC & _ & _ & _ & ->).
+  cbn [s_claims]. rewrite pget_pset. destruct (pkey_eqb (p, a) k) eqn:E; [|auto].
+  apply pkey_eqb_eq in E. subst k. intros _. congruence.
+Qed.
+Lemma claim_all_keeps_keys : forall now p l s s' k, claim_all actors now p l s = Ok s' ->
+  pget k (s_claims s') <> None -> pget k (s_claims s) <> None.
+Proof.
+  intros now p l. induction l as [|a l IH]; intros s s' k H; cbn [claim_all] in H.
+  - inversion H; auto.
+  - unfold bind in H. destruct (sp_claim actors now p a s) as [s1| |] eqn:E; try discriminate.
+    intro N. apply (claim_keeps_keys _ _ _ _ _ _ E). apply (IH _ _ _ H N).
+Qed.
+
+Lemma step_new_claim_record : forall now o s s' k, sp_apply dynguard actors U now o s = Ok s' ->
+  pget k (s_claims s') <> None ->
+  pget k (s_claims s) <> None \/ exists a p, o = ORegister a p /\ k = (p, a).
+Proof.
+  intros now o s s' k H N. destruct o; cbn [sp_apply] in H.
+  - unfold sp_create in H. destruct (negb _); [discriminate|]. destruct (zhas _ _); [discriminate|]. inversion H; subst; auto.
+  - unfold sp_deposit in H. destruct (negb _); [discriminate|]. destruct (negb _); [discriminate|].
+    destruct (zget _ _); [|discriminate]. inversion H; subst; auto.
+  - unfold sp_register in H. destruct (zget p (s_pools s)); [|discriminate]. destruct (negb _); [discriminate|].
+    inversion H; subst s'. cbn [s_claims] in N. rewrite pget_pset in N.
+    destruct (pkey_eqb (p, a) k) eqn:E; [|auto]. apply pkey_eqb_eq in E. right. exists a, p. auto.
+  - left. exact (claim_keeps_keys _ _ _ _ _ _ H N).
+  - unfold sp_update in H. destruct (zget _ _); [|discriminate]. inversion H; subst; auto.
+  - unfold sp_distribute in H. destruct (zget _ _); [|discriminate]. left. exact (claim_all_keeps_keys _ _ _ _ _ _ H N).
+  - unfold sp_withdraw in H. destruct (zget _ _); [|discriminate]. unfold bind in H.
+    destruct (withdraw_loop _ _ _ _ _ _) as [[? ?]| |]; try discriminate. inversion H; subst; auto.
+  - unfold sp_endblock, bind in H. destruct (endblock_pools _ _ _ _ _ _); try discriminate. inversion H; subst; auto.
+  - destruct (negb _); [discriminate|]. destruct (negb _); [discriminate|]. inversion H; subst; auto.
+Qed.
+
+(* over every history: a (pool, account) claim record exists only if the account registered *)
+Theorem claim_records_only_by_register : forall h s k,
+  pget k (s_claims (sp_run dynguard actors U s h)) <> None ->
+  pget k (s_claims s) <> None \/ exists now a p, In (now, ORegister a p) h /\ k = (p, a).
+Proof.
+  induction h as [|[now o] h IH]; intros s k N; cbn [sp_run fold_left] in N; [auto|].
+  destruct (IH _ _ N) as [Hs|(now' & a & p & Hin & ->)].
+  - unfold sp_step in Hs. cbn [fst snd] in Hs.
+    destruct (sp_apply dynguard actors U now o s) as [s'| |] eqn:E; auto.
+    destruct (step_new_claim_record _ _ _ _ _ E Hs) as [L|(a & p & -> & ->)]; [auto|].
+    right. exists now, a, p. split; [left; reflexivity | reflexivity].
+  - right. exists now', a, p. split; [right; assumption | reflexivity].
+Qed.
+End ClaimRecords.
+
+(* ---------------- with the error returned (repaired Apply) a removal is all or nothing *)
+Theorem removal_all_or_nothing : forall U c s s', co_remove true U c s = Ok s' -> cs_colls s' = zdel c (cs_colls s).
+Proof.
+  intros U c s s' H. unfold co_remove in H. destruct (zget c (cs_colls s)) as [C|]; [|discriminate].
+  unfold bind in H. destruct (remove_loop U c (co_bonds C) (co_contribs C) C (cs_bank s)) as [[[C' b'] done]| |]; try discriminate.
+  destruct done; [inversion H; reflexivity | discriminate].
+Qed.
+
+(* ---------------- chk_sound for claims: whatever the model pays on a claim passes the spec checker's
+   payment clauses (entitlement, registration, beneficiary, book), when the checker's ghost record
+   agrees with the model state *)
+Lemma max_list_ge : forall l w, In w l -> w <= max_list l.
+Proof. induction l as [|x l IH]; intros w H; [contradiction|]. cbn [max_list fold_right]. destruct H as [->|H]; [lia|]. specialize (IH _ H). unfold max_list in IH. lia. Qed.
+Lemma max_list_nonneg : forall l, 0 <= max_list l.
+Proof. induction l as [|x l IH]; cbn [max_list fold_right]; [lia|]. unfold max_list in IH. lia. Qed.
+Lemma zget_in : forall {A} k (v : A) l, zget k l = Some v -> In (k, v) l.
+Proof.
+  intros A k v l. induction l as [|[k' w] l IH]; cbn [zget]; [discriminate|].
+  destruct (k' =? k) eqn:E; intro H; [inversion H; subst; left; f_equal; lia | right; auto].
+Qed.
+
+Section ChkSound.
+Variable actors : list (Z * list Z).
+Variable U : list Z.
+
+Lemma weight_in_granted : forall T a, weight_of actors T a <> 0 -> In (weight_of actors T a) (granted_weights actors T a).
+Proof.
+  intros T a H. unfold weight_of, granted_weights in *. apply in_or_app.
+  destruct (zget a (t_baccts T)) as [w|] eqn:EA.
+  - left. apply zget_in in EA. apply in_map_iff. exists (a, w). split; [reflexivity|].
+    apply filter_In. split; [assumption | cbn; lia].
+  - right. destruct (find _ (roles_of actors a)) as [r|] eqn:F; [|congruence].
+    apply find_some in F. destruct F as [Hin _].
+    destruct (zget_last r (t_broles T)) as [w|] eqn:EL; [|congruence].
+    unfold zget_last in EL. apply zget_in in EL. apply in_rev in EL.
+    apply in_map_iff. exists (r, w). split; [reflexivity|]. apply filter_In. split; [assumption|].
+    cbn [fst]. apply existsb_exists. exists r. split; [assumption | lia].
+Qed.
+
+Lemma ent_bound_absent : forall rates secs w d, ~ In d (map fst rates) -> ent_bound rates secs w d = 0 /\ zsum (map snd (filter (fun e => fst e =? d) rates)) = 0.
+Proof.
+  induction rates as [|[d0 r] rest IH]; intros secs w d Hn; unfold ent_bound in *; cbn [map filter fst snd zsum fold_right].
+  - split; reflexivity.
+  - cbn [map fst In] in Hn. destruct (IH secs w d ltac:(tauto)) as [A B]. unfold zsum in *.
+    assert ((d0 =? d) = false) as -> by lia. split; lia.
+Qed.
+Lemma ent_bound_nodup : forall rates secs w d, NoDup (map fst rates) ->
+  ent_bound rates secs w d <= 2 * (zsum (map snd (filter (fun e => fst e =? d) rates)) * secs * w) + PREC * PREC + PREC.
+Proof.
+  induction rates as [|[d0 r] rest IH]; intros secs w d ND.
+  - unfold ent_bound, zsum. cbn. unfold PREC. lia.
+  - cbn [map fst] in ND. inversion ND as [|? ? Hnin ND']; subst. specialize (IH secs w d ND').
+    unfold ent_bound in *. cbn [map filter fst snd]. destruct (d0 =? d) eqn:E.
+    + assert (d0 = d) by lia. subst d0. destruct (ent_bound_absent rest secs w d Hnin) as [A B]. unfold ent_bound in A.
+      unfold zsum in *. cbn [map fold_right snd]. rewrite A, B. unfold PREC. lia.
+    + unfold zsum in *. cbn [fold_right]. lia.
+Qed.
+Lemma rate_sum_nonneg : forall rates d, (forall e, In e rates -> 0 <= snd e) -> 0 <= zsum (map snd (filter (fun e => fst e =? d) rates)).
+Proof.
+  induction rates as [|[d0 r] rest IH]; intros d H; unfold zsum in *; cbn [filter map fold_right fst snd]; [lia|].
+  assert (0 <= r) by (apply (H (d0, r)); left; reflexivity).
+  specialize (IH d ltac:(intros; apply H; right; assumption)). destruct (d0 =? d); cbn [map fold_right snd]; lia.
+Qed.
+Lemma entitled_seconds_nonneg : forall T last now, 0 <= entitled_seconds T last now.
+Proof. intros. unfold entitled_seconds. cbv zeta. lia. Qed.
+
+Theorem model_claim_passes_checker : forall S now p a s s' P,
+  sp_claim actors now p a s = Ok s' -> zget p (s_pools s) = Some P ->
+  (* the checker's ghost record agrees with the model state *)
+  zget p (ss_terms S) = Some (p_terms P) ->
+  (forall d, In d U -> fget p (ss_book S) d = p_bal P d) ->
+  pget (p, a) (ss_last S) = pget (p, a) (s_claims s) ->
+  (* well-formed terms and state *)
+  NoDup (map fst (t_rates (p_terms P))) -> (forall e, In e (t_rates (p_terms P)) -> 0 <= snd e) ->
+  (forall w, In w (granted_weights actors (p_terms P) a) -> 0 <= w) ->
+  (forall d, 0 <= p_bal P d) -> a <> MODULE ->
+  check_payment actors U S now p a (csub (s_bank s' a) (s_bank s a)) = [].
+Proof.
+  intros S now p a s s' P H EP GT GB GL ND RN WN BN AM.
+  destruct (sp_claim_inv _ _ _ _ _ _ H) as (P1 & last & rw1 & EP1 & EC & Hw & Hpay & Hge & Es).
+  rewrite EP in EP1. inversion EP1; subst P1. clear EP1.
+  assert (Hpaid : forall d, csub (s_bank s' a) (s_bank s a) d = rw1 d).
+  { intro d. rewrite Es. cbn [s_bank]. unfold bank_send, cadd, csub. rewrite Z.eqb_refl.
+    destruct (a =? MODULE) eqn:E; [lia|]. lia. }
+  pose proof (claim_pay_nonneg _ _ _ _ _ _ Hpay) as Hnn.
+  assert (Hle : forall d, 0 <= p_bal P d -> rw1 d <= p_bal P d).
+  { intros d Hd. destruct (in_dec Z.eq_dec d (map fst (t_rates (p_terms P)))) as [Hin|Hn].
+    - apply (cge_on_spec _ _ _ Hge d Hin).
+    - rewrite (claim_pay_support _ _ _ _ _ _ Hpay d Hn). assumption. }
+  unfold check_payment. destruct (ceq U (csub (s_bank s' a) (s_bank s a)) czero); [reflexivity|].
+  rewrite GT, GL, EC.
+  pose proof (weight_in_granted _ _ Hw) as Win.
+  set (T := p_terms P) in *. set (w := weight_of actors T a) in *.
+  assert (W0 : 0 <= w) by (apply WN; exact Win).
+  assert (Hs : Forall (fun e => 0 <= snd e * w) (t_rates T)).
+  { apply Forall_forall. intros e He. specialize (RN e He). nia. }
+  pose proof (claim_le_entitlement actors P a last now rw1 Hpay Hs) as HE. fold T w in HE.
+  assert (C1 : cnonneg U (csub (s_bank s' a) (s_bank s a)) = true).
+  { unfold cnonneg. apply forallb_forall. intros d _. rewrite Hpaid. specialize (Hnn d). lia. }
+  assert (C2 : within_entitlement actors U T a last now (csub (s_bank s' a) (s_bank s a)) = true).
+  { unfold within_entitlement. cbv zeta. apply forallb_forall. intros d _. rewrite Hpaid.
+    destruct (HE d) as [_ B]. pose proof (ent_bound_nodup (t_rates T) (entitled_seconds T last now) w d ND) as B2.
+    pose proof (rate_sum_nonneg (t_rates T) d RN) as R0. pose proof (entitled_seconds_nonneg T last now) as S0.
+    pose proof (max_list_ge _ _ Win) as WM. unfold rate_of.
+    set (R := zsum (map snd (filter (fun e => fst e =? d) (t_rates T)))) in *.
+    set (secs := entitled_seconds T last now) in *. set (wm := max_list (granted_weights actors T a)) in *.
+    assert (R * secs * w <= R * secs * wm) by nia.
+    assert (R * secs * wm <= Z.max 0 (R * secs * wm)) by lia.
+    unfold PREC in *. lia. }
+  assert (C3 : negb (match granted_weights actors T a with [] => true | _ => false end) = true).
+  { destruct (granted_weights actors T a); [contradiction | reflexivity]. }
+  assert (C4 : cle U (csub (s_bank s' a) (s_bank s a)) (fget p (ss_book S)) = true).
+  { unfold cle. apply forallb_forall. intros d Hd. rewrite Hpaid, (GB d Hd). specialize (Hle d (BN d)). lia. }
+  unfold flag. rewrite C1, C2, C3, C4. reflexivity.
+Qed.
+End ChkSound.
+
+(* ---------------- collectives over histories: a contributor's bond record is the sum of what it
+   put in by accepted create / contribute messages since its last withdrawal or removal *)
+Lemma zget_app_new : forall {A} k (v : A) k' l,
+  zget k' (l ++ [(k, v)]) = match zget k' l with Some x => Some x | None => if k =? k' then Some v else None end.
+Proof. intros A k v k' l. induction l as [|[k0 w] l IH]; cbn [app zget]; [reflexivity|]. destruct (k0 =? k'); [reflexivity | exact IH]. Qed.
+Lemma zget_zins_same : forall {A} k (v : A) l, zget k (zins k v l) = Some v.
+Proof.
+  intros A k v l. induction l as [|[k0 w] l IH]; cbn [zins zget]; [rewrite Z.eqb_refl; reflexivity|].
+  destruct (k0 =? k) eqn:E; cbn [zget]; [rewrite Z.eqb_refl; reflexivity|].
+  destruct (k <? k0); cbn [zget]; [rewrite Z.eqb_refl; reflexivity | rewrite E; exact IH].
+Qed.
+Lemma zget_zins_other : forall {A} k q (v : A) l, q <> k -> zget q (zins k v l) = zget q l.
+Proof.
+  intros A k q v l Hne. induction l as [|[k0 w] l IH]; cbn [zins zget].
+  - destruct (k =? q) eqn:E; [lia | reflexivity].
+  - destruct (k0 =? k) eqn:E; cbn [zget].
+    + assert (k0 = k) by lia. subst k0. destruct (k =? q) eqn:E2; [lia | reflexivity].
+    + destruct (k <? k0); cbn [zget].
+      * destruct (k =? q) eqn:E2; [lia | reflexivity].
+      * destruct (k0 =? q); [reflexivity | exact IH].
+Qed.
+Lemma zget_zdel_same : forall {A} k (l : list (Z * A)), zget k (zdel k l) = None.
+Proof. intros A k l. induction l as [|[k0 w] l IH]; cbn [zdel zget]; [reflexivity|]. destruct (k0 =? k) eqn:E; [exact IH | cbn [zget]; rewrite E; exact IH]. Qed.
+Lemma zget_zdel_other : forall {A} k q (l : list (Z * A)), q <> k -> zget q (zdel k l) = zget q l.
+Proof.
+  intros A k q l Hne. induction l as [|[k0 w] l IH]; cbn [zdel zget]; [reflexivity|].
+  destruct (k0 =? k) eqn:E.
+  - destruct (k0 =? q) eqn:E2; [lia | exact IH].
+  - cbn [zget]. destruct (k0 =? q); [reflexivity | exact IH].
+Qed.
+
+Definition cbonds (s : cstate) (c a : Z) : fcoins :=
+  match zget c (cs_colls s) with
+  | Some C => match zget a (co_contribs C) with Some cc => cc_bonds cc | None => czero end
+  | None => czero
+  end.
+Definition has_rec (s : cstate) (c a : Z) : bool :=
+  match zget c (cs_colls s) with Some C => zhas a (co_contribs C) | None => false end.
+Definition ghost := Z -> Z -> fcoins.
+Definition at_key (c a c' a' : Z) : bool := (c' =? c) && (a' =? a).
+(* the ghost record: set by create, increased by contribute, cleared by withdraw and for every
+   record a removal deleted; nothing else touches it *)
+Definition gstep (g : ghost) (o : co_op) (s' : cstate) : ghost :=
+  match o with
+  | CCreate a c bonds _ _ _ => fun c' a' => if at_key c a c' a' then cof bonds else g c' a'
+  | CContribute a c bonds => fun c' a' => if at_key c a c' a' then cadd (g c a) (cof bonds) else g c' a'
+  | CWithdraw a c => fun c' a' => if at_key c a c' a' then czero else g c' a'
+  | CRemove c => fun c' a' => if (c' =? c) && negb (has_rec s' c' a') then czero else g c' a'
+  | _ => g
+  end.
+
+Section BondsHistory.
+Variable ratomic : bool.
+Variable actors : list (Z * list Z).
+Variable U : list Z.
+
+Definition gs_step (sg : cstate * ghost) (e : Z * co_op) : cstate * ghost :=
+  match co_apply ratomic actors U (fst e) (snd e) (fst sg) with
+  | Ok s' => (s', gstep (snd sg) (snd e) s')
+  | _ => sg
+  end.
+Definition gs_run (sg : cstate * ghost) (h : list (Z * co_op)) : cstate * ghost := fold_left gs_step h sg.
+Definition bonds_inv (sg : cstate * ghost) : Prop := forall c a d, cbonds (fst sg) c a d = snd sg c a d.
+
+Lemma cbonds_set_coll : forall s c C b c' a', cbonds (set_coll c C s b) c' a' =
+  if c' =? c then match zget a' (co_contribs C) with Some cc => cc_bonds cc | None => czero end else cbonds s c' a'.
+Proof.
+  intros s c C b c' a'. unfold cbonds, set_coll. cbn [cs_colls]. destruct (c' =? c) eqn:E.
+  - assert (c' = c) by lia. subst c'. rewrite zget_zset_same. reflexivity.
+  - rewrite zget_zset_other by lia. reflexivity.
+Qed.
+
+Lemma remove_loop_keeps : forall c bonds0 l C b C' b' done,
+  remove_loop U c bonds0 l C b = Ok (C', b', done) ->
+  forall a cc, zget a (co_contribs C') = Some cc -> zget a (co_contribs C) = Some cc.
+Proof.
+  intros c bonds0 l. induction l as [|[a0 cc0] l IH]; intros C b C' b' done H a cc Hz; cbn [remove_loop] in H.
+  - inversion H; subst. exact Hz.
+  - destruct (withdraw_core U a0 c bonds0 cc0 b) as [bonds' b1|bp|m]; try discriminate.
+    + specialize (IH _ _ _ _ _ H a cc Hz). unfold with_bonds in IH. cbn [co_contribs] in IH.
+      destruct (Z.eq_dec a a0) as [->|Hne]; [rewrite zget_zdel_same in IH; discriminate|].
+      rewrite zget_zdel_other in IH by assumption. exact IH.
+    + inversion H; subst. exact Hz.
+Qed.
+
+Lemma step_bonds_inv : forall now o s s' g, co_apply ratomic actors U now o s = Ok s' ->
+  bonds_inv (s, g) -> bonds_inv (s', gstep g o s').
+Proof.
+  intros now o s s' g H I c' a' d. unfold bonds_inv in I. cbn [fst snd] in *. destruct o; cbn [co_apply gstep] in *.
+  - (* create *) unfold co_create in H. destruct (zhas c (cs_colls s)) eqn:Z; [discriminate|].
+    destruct (negb _); [discriminate|]. destruct (negb _); [discriminate|]. inversion H; subst s'. clear H.
+    unfold cbonds. cbn [cs_colls]. rewrite zget_app_new. unfold at_key.
+    unfold zhas in Z. specialize (I c' a' d). unfold cbonds in I.
+    destruct (zget c' (cs_colls s)) as [C0|] eqn:E0.
+    + assert ((c' =? c) = false) as -> by (destruct (c' =? c) eqn:E; [assert (c' = c) by lia; subst; rewrite E0 in Z; discriminate | reflexivity]).
+      exact I.
+    + destruct (c =? c') eqn:E.
+      * assert ((c' =? c) = true) as -> by lia. cbn [co_contribs zget andb]. destruct (a =? a') eqn:E2.
+        -- assert ((a' =? a) = true) as -> by lia. reflexivity.
+        -- assert ((a' =? a) = false) as -> by lia. rewrite <- I. reflexivity.
+      * assert ((c' =? c) = false) as -> by lia. exact I.
+  - (* contribute *) unfold co_contribute in H. destruct (zget c (cs_colls s)) as [C|] eqn:EC; [|discriminate].
+    destruct (negb _); [discriminate|]. destruct (negb _); [discriminate|]. destruct (negb _); [discriminate|].
+    unfold bind in H.
+    assert (exists cc' b', s' = set_coll c (mkColl (cadd (co_bonds C) (cof bonds)) (co_donations C) (co_any C) (co_wroles C) (co_waccts C)
+                                                   (zins a cc' (co_contribs C))) s b'
+                           /\ forall d, cc_bonds cc' d = cbonds s c a d + cof bonds d) as (cc' & b' & -> & Hb).
+    { unfold cbonds. rewrite EC. destruct (zget a (co_contribs C)) as [cc|].
+      - destruct (portion U (cof bonds) (cc_don cc)); try discriminate. destruct (send_if U _ _ _ _); try discriminate.
+        inversion H. eexists. eexists. split; [reflexivity|]. intro; reflexivity.
+      - inversion H. eexists. eexists. split; [reflexivity|]. intro. unfold czero. cbn. lia. }
+    rewrite cbonds_set_coll. cbn [co_contribs]. unfold at_key. destruct (c' =? c) eqn:E; cbn [andb].
+    + assert (c' = c) by lia. subst c'. destruct (a' =? a) eqn:E2.
+      * assert (a' = a) by lia. subst a'. rewrite zget_zins_same. rewrite Hb. unfold cadd. rewrite (I c a d). reflexivity.
+      * rewrite zget_zins_other by lia. rewrite <- I. unfold cbonds. rewrite EC. reflexivity.
+    + apply I.
+  - (* donate *) unfold co_donate in H. destruct (_ || _); [discriminate|].
+    destruct (zget c (cs_colls s)) as [C|] eqn:EC; [|discriminate]. destruct (zget a (co_contribs C)) as [cc|] eqn:ECC; [|discriminate].
+    destruct (_ <? _); [discriminate|]. destruct (_ <? _); [discriminate|]. destruct (cc_dlock cc); [discriminate|].
+    unfold bind in H.
+    match type of H with match ?x with Ok _ => _ | Err _ => _ | Panic _ => _ end = Ok _ => destruct x as [b'| |]; try discriminate end.
+    inversion H; subst s'. rewrite cbonds_set_coll. cbn [co_contribs]. destruct (c' =? c) eqn:E; [|apply I].
+    assert (c' = c) by lia. subst c'. rewrite <- I. unfold cbonds. rewrite EC.
+    destruct (Z.eq_dec a' a) as [->|Hne]; [rewrite zget_zset_same, ECC; reflexivity | rewrite zget_zset_other by assumption; reflexivity].
+  - (* withdraw *) unfold co_withdraw in H. destruct (zget c (cs_colls s)) as [C|] eqn:EC; [|discriminate].
+    destruct (zget a (co_contribs C)) as [cc|]; [|discriminate]. destruct (_ <? _); [discriminate|].
+    destruct (withdraw_core U a c (co_bonds C) cc (cs_bank s)) as [bonds' b'|bp|m]; try discriminate.
+    inversion H; subst s'. rewrite cbonds_set_coll. unfold with_bonds, at_key. cbn [co_contribs].
+    destruct (c' =? c) eqn:E; cbn [andb]; [|apply I]. assert (c' = c) by lia. subst c'.
+    destruct (a' =? a) eqn:E2.
+    + assert (a' = a) by lia. subst a'. rewrite zget_zdel_same. reflexivity.
+    + rewrite zget_zdel_other by lia. rewrite <- I. unfold cbonds. rewrite EC. reflexivity.
+  - (* send donation *) unfold co_send_donation in H. destruct (zget c (cs_colls s)) as [C|] eqn:EC; [|discriminate].
+    destruct (negb _); [discriminate|]. destruct (negb _); [discriminate|]. destruct (negb _); [discriminate|].
+    inversion H; subst s'. rewrite cbonds_set_coll. cbn [co_contribs]. destruct (c' =? c) eqn:E; [|apply I].
+    assert (c' = c) by lia. subst c'. rewrite <- I. unfold cbonds. rewrite EC. reflexivity.
+  - (* remove *) unfold co_remove in H. destruct (zget c (cs_colls s)) as [C|] eqn:EC; [|discriminate].
+    unfold bind in H. destruct (remove_loop U c (co_bonds C) (co_contribs C) C (cs_bank s)) as [[[C' b'] done]| |] eqn:EL; try discriminate.
+    pose proof (remove_loop_keeps _ _ _ _ _ _ _ _ EL) as K.
+    destruct (c' =? c) eqn:E; cbn [andb].
+    + assert (c' = c) by lia. subst c'. destruct done.
+      * inversion H; subst s'. unfold has_rec, cbonds. cbn [cs_colls]. rewrite zget_zdel_same. reflexivity.
+      * destruct ratomic; [discriminate|]. inversion H; subst s'. unfold has_rec. rewrite cbonds_set_coll. rewrite Z.eqb_refl.
+        unfold set_coll. cbn [cs_colls]. rewrite zget_zset_same. unfold zhas.
+        destruct (zget a' (co_contribs C')) as [cc|] eqn:EZ; cbn [negb]; [|reflexivity].
+        rewrite <- I. unfold cbonds. rewrite EC. rewrite (K _ _ EZ). reflexivity.
+    + rewrite <- I. destruct done.
+      * inversion H; subst s'. unfold cbonds. cbn [cs_colls]. rewrite zget_zdel_other by lia. reflexivity.
+      * destruct ratomic; [discriminate|]. inversion H; subst s'. rewrite cbonds_set_coll. rewrite E. reflexivity.
+  - (* seed *) destruct (zget c (cs_colls s)) as [C|] eqn:EC; [|discriminate]. destruct (negb _); [discriminate|].
+    inversion H; subst s'. rewrite cbonds_set_coll. cbn [co_contribs]. destruct (c' =? c) eqn:E; [|apply I].
+    assert (c' = c) by lia. subst c'. rewrite <- I. unfold cbonds. rewrite EC. reflexivity.
+Qed.
+
+Theorem bonds_are_sum_of_contributions : forall h sg, bonds_inv sg -> bonds_inv (gs_run sg h).
+Proof.
+  induction h as [|e h IH]; intros [s g] I; [exact I|]. cbn [gs_run fold_left]. apply IH.
+  unfold gs_step. cbn [fst snd]. destruct (co_apply ratomic actors U (fst e) (snd e) s) as [s'| |] eqn:E; try exact I.
+  exact (step_bonds_inv _ _ _ _ _ E I).
+Qed.
+Corollary bonds_from_empty : forall h b, bonds_inv (gs_run (mkCS [] b, fun _ _ => czero) h).
+Proof. intros h b. apply bonds_are_sum_of_contributions. intros c a d. reflexivity. Qed.
+End BondsHistory.
